@@ -17,13 +17,13 @@ import json, os, random, re, subprocess, sys, time
 REPO = "/repo"
 FILES = {
     "crates/maybenot/src/framework.rs": ["C05", "C01", "C04", "C02", "C03", "C07", "C08", "C09", "C10", "C20"],
-    "crates/maybenot/src/state.rs": ["C06", "C05", "C11"],
+    "crates/maybenot/src/state.rs": ["C06", "C05", "C11", "C01", "C13"],
     "crates/maybenot/src/action.rs": ["C04", "C05", "C07", "C01"],
-    "crates/maybenot/src/counter.rs": ["C08", "C05", "C11"],
-    "crates/maybenot/src/dist.rs": ["C13", "C04", "C05"],
+    "crates/maybenot/src/counter.rs": ["C08", "C05", "C11", "C01"],
+    "crates/maybenot/src/dist.rs": ["C13", "C04", "C05", "C01"],
     "crates/maybenot/src/time.rs": ["C03", "C05", "C01"],
     "crates/maybenot/src/event.rs": ["C06", "C05", "C20"],
-    "crates/maybenot/src/machine.rs": ["C11", "C05"],
+    "crates/maybenot/src/machine.rs": ["C11", "C05", "C01"],
     "crates/maybenot/src/parsing.rs": ["C11"],
     "crates/maybenot-simulator/src/lib.rs": ["C17", "C15", "C16", "C18", "C14", "C19"],
     "crates/maybenot-simulator/src/network.rs": ["C15", "C14", "C19", "C16"],
